@@ -1,5 +1,5 @@
 // C10 — garbage collection removes exactly the expired and over-limit data.
-// Exhaustive enumeration of small stores; Store.Gc on the real store; a
+// Exhaustive enumeration of small stores; Store.Gc on the real store; stores of up to 3 (thorough: all) data also with every expiry mark set twice (first another duration) and as a text metric whose data were re-assigned their own value at the update time; a
 // set-valued reference decides which survivor sets are admissible.
 package main
 
@@ -77,14 +77,28 @@ func admissible(limit int, data []dat, survivors []int) (bool, string) {
 	return false, fmt.Sprintf("survivors %v are not (initial − %d oldest − expired) for any admissible choice of oldest", survivors, need)
 }
 
-func check(c *vlib.Ctx, limit int, data []dat, now time.Time) {
+func check(c *vlib.Ctx, limit int, data []dat, now time.Time, mode string) {
 	s := metrics.NewStore()
 	m := metrics.NewMetric("lim", "prog", metrics.Gauge, metrics.Int, "k")
+	if mode == "text" {
+		m = metrics.NewMetric("lim", "prog", metrics.Text, metrics.String, "k")
+	}
 	m.Limit = limit
 	for i, d := range data {
 		dd, _ := m.GetDatum(fmt.Sprintf("d%d", i))
-		datum.SetInt(dd, int64(100+i), now.Add(-time.Duration(d.age)*time.Minute))
+		ts := now.Add(-time.Duration(d.age) * time.Minute)
+		if mode == "text" {
+			// written long ago, then assigned the same text again at its real update time
+			datum.SetString(dd, fmt.Sprintf("v%d", i), now.Add(-200*time.Minute))
+			datum.SetString(dd, fmt.Sprintf("v%d", i), ts)
+		} else {
+			datum.SetInt(dd, int64(100+i), ts)
+		}
 		if d.expiry > 0 {
+			if mode == "remark" {
+				// marked first with the other duration, then re-marked: the last mark counts
+				_ = m.ExpireDatum(time.Duration(180-d.expiry)*time.Minute, fmt.Sprintf("d%d", i))
+			}
 			_ = m.ExpireDatum(time.Duration(d.expiry)*time.Minute, fmt.Sprintf("d%d", i))
 		}
 	}
@@ -104,6 +118,9 @@ func check(c *vlib.Ctx, limit int, data []dat, now time.Time) {
 		desc[i] = fmt.Sprintf("%d/%d", d.age, d.expiry)
 	}
 	key := fmt.Sprintf("limit=%d data=%s", limit, strings.Join(desc, ","))
+	if mode != "plain" {
+		key = mode + " " + key
+	}
 	rep := store{Limit: limit, Desc: desc}
 	var perr interface{}
 	func() {
@@ -121,7 +138,11 @@ func check(c *vlib.Ctx, limit int, data []dat, now time.Time) {
 		var i int
 		fmt.Sscanf(lv.Labels[0], "d%d", &i)
 		surv = append(surv, i)
-		if datum.GetInt(lv.Value) != int64(100+i) {
+		if mode == "text" {
+			if datum.GetString(lv.Value) != fmt.Sprintf("v%d", i) {
+				c.Report(key, "Gc changed a value", rep)
+			}
+		} else if datum.GetInt(lv.Value) != int64(100+i) {
 			c.Report(key, "Gc changed a value", rep)
 		}
 		wantE := time.Duration(data[i].expiry) * time.Minute
@@ -192,7 +213,11 @@ func main() {
 	now := time.Now()
 	vlib.Parallel(len(all), runtime.NumCPU(), func(i int) {
 		for _, l := range limits {
-			check(c, l, all[i], now)
+			check(c, l, all[i], now, "plain")
+			if len(all[i]) <= 3 || c.Thorough() {
+				check(c, l, all[i], now, "remark")
+				check(c, l, all[i], now, "text")
+			}
 		}
 		if i%9000 == 50 {
 			d := make([]string, len(all[i]))
@@ -203,5 +228,5 @@ func main() {
 		}
 	})
 	c.Assume = []string{"Gc reads the wall clock; the harness places stamps 30/90/150 minutes before its own clock reading and expiries at 60/120 minutes, so clock drift below 30 minutes during the run cannot change any verdict"}
-	c.Finish("all stores with one limited metric (limit 0..3, thorough 0..4) holding 0..4 (thorough 5) data with every combination of age in {150,90,30} min (ties included) and expiry mark in {none,1h,2h}, plus an unlimited bystander and a text metric; Gc on the real store; survivors must equal initial − (n−limit oldest, ties either way) − expired, order, values and marks unchanged. distinct_nontrivial = distinct stores where Gc removed something")
+	c.Finish("all stores with one limited metric (limit 0..3, thorough 0..4) holding 0..4 (thorough 5) data with every combination of age in {150,90,30} min (ties included) and expiry mark in {none,1h,2h}, plus an unlimited bystander and a text metric; Gc on the real store; stores of up to 3 (thorough: all) data also with every expiry mark set twice (first another duration) and as a text metric whose data were re-assigned their own value at the update time; survivors must equal initial − (n−limit oldest, ties either way) − expired, order, values and marks unchanged. distinct_nontrivial = distinct stores where Gc removed something")
 }
